@@ -10,10 +10,6 @@ def check(tier, seed, only=None):
         jobs = rolling.jobs(os.path.join(runner.scratch(), "rolling"))
     except overlay.OverlayError as e:
         raise evidence.Undecided("extraction broke: %s" % e)
-    if tier == "quick":
-        # the closed-form window hash makes the scan-loop and run() obligations expensive (tens of minutes):
-        # quick proves table and init; reset, the scan-loop contract and run() are attempted in the thorough tier
-        jobs = [j for j in jobs if j.name in ("rolling/table_pinned", "rolling/init")]
     if only:
         jobs = [j for j in jobs if any(s in j.name for s in only.split(","))]
 
@@ -26,8 +22,10 @@ def check(tier, seed, only=None):
     try:
         lmax, nseed = (70, 8) if tier == "quick" else (300, 40)
         d = native.rolling_diff(os.path.join(runner.scratch(), "native_roll"), lmax, nseed, seed)
-        rep.bounded.append({"what": "_rolling_hash2_run_until_00/_04 (NASM) == _rolling_hash2_run_until_base (C, proved)",
-                            "label": "bounded", "bound": "w in [1,48], scan length <= w+%d, 5 mask shapes, %d random buffers each" % (lmax, nseed),
+        rep.bounded.append({"what": "_rolling_hash2_run_until_00/_04 (NASM): same (index, hash) as the proved C loop for triggers inside the mask; the contract VF_C_RUN_UNTIL "
+                                    "itself for arbitrary triggers; isal_rolling_hash2_init/reset/run end to end over random streams cut into random run calls == the "
+                                    "closed-form definition",
+                            "label": "bounded", "bound": "w in [1,48], scan length <= w+%d, 5 mask shapes, %d random buffers each; %d random streams < 5 KiB end to end" % (lmax, nseed, lmax * nseed),
                             "evaluations": d["calls"], "distinct_nontrivial": d["cases"], "agree": d["ok"], "cmd": d["cmd"]})
         if not d["ok"]:
             path = os.path.join(rep.replay_dir(), "roll_diff.txt")
@@ -41,10 +39,13 @@ def check(tier, seed, only=None):
     rep.assumptions.append("the library's table rolling_hash2_table1 is a non-const global: its initial image is proved equal to the pinned table, and no library function writes it (frame clauses of every contract)")
     rep.notes.append("observation: _rolling_hash2_run forms the pointer `buffer - w` (before the start of the caller's buffer) to pass it to the scan; "
                      "CBMC's pointer-overflow check is switched off for this translation unit for that reason; no access below buffer[0] happens (bounds obligations discharged)")
-    rep.notes.append("quick tier proves table pin and init; reset, the scan-loop contract (run_until_base) and _rolling_hash2_run are attempted in the thorough tier only: with the closed-form 48-term window hash they did not finish within 30-60 minutes on this image (minisat) or ran out of memory (cadical), so for them the claim rests on the bounded native checks")
+    rep.notes.append("ghost hash stream g_H (contracts/rolling_prelude.h): computed by ghost assignments next to the real updates; the contracts of reset, "
+                     "the C scan loop and _rolling_hash2_run are proved for ARBITRARY table contents; init is proved to install the pinned table and its rotation; "
+                     "lemma_reset / lemma_step (harness/rolling_lemmas.c) are the induction steps from the recurrence to the closed form over the last w bytes")
+    rep.notes.append("closing argument (not machine checked as a whole): induction over the stream positions with lemma_step, started by lemma_reset")
     return rep.finish(
-        "goto-instrument --dfcc --enforce-contract <fn> [--replace-call-with-contract ...] --apply-loop-contracts; cbmc --bounds-check --pointer-check --unwind 260 --unwinding-assertions",
-        "window hash specified in closed form H(e) = XOR_{j<w} rol64(T1[byte(e-j)], j) over the pinned table; contracts stated for one arbitrary witness position")
+        "goto-instrument --dfcc --enforce-contract <fn> [--replace-call-with-contract ...] --apply-loop-contracts; cbmc --bounds-check --pointer-check --unwind 52|260 --unwinding-assertions",
+        "rolling recurrence over history||buffer as a ghost hash stream, one arbitrary witness position; closed form H(e) = XOR_{j<w} rol64(T1[byte(e-j)], j) by two lemmas")
 
 
 def replay(path):
